@@ -82,6 +82,17 @@ def group_chain(depth, fan):
     return s + '<xs:complexType name="T"><xs:sequence><xs:group ref="tns:G0"/></xs:sequence></xs:complexType>\n' + XF
 
 
+def group_dag_backward(layers):
+    """model groups in `layers` layers of two, every group referring to both groups of the layer below, each group declared BEFORE
+    the groups that refer to it (no forward reference): a lower layer is reachable along 2^k paths, read once when found again"""
+    s = XH
+    for i in range(layers - 1, -1, -1):
+        for side in ("L", "R"):
+            body = f'<xs:element name="x{side}{i}" type="xs:string"/>' if i == layers - 1 else f'<xs:group ref="tns:L{i+1}"/><xs:group ref="tns:R{i+1}"/>'
+            s += f'<xs:group name="{side}{i}"><xs:sequence>{body}</xs:sequence></xs:group>\n'
+    return s + '<xs:complexType name="T"><xs:sequence><xs:group ref="tns:L0"/></xs:sequence></xs:complexType>\n' + XF
+
+
 def wsdl_parts(inbody, outbody, inhdr="", outhdr=""):
     return f'''<?xml version="1.0"?>
 <wsdl:definitions xmlns:wsdl="http://schemas.xmlsoap.org/wsdl/" xmlns:soap="http://schemas.xmlsoap.org/wsdl/soap/" xmlns:xs="http://www.w3.org/2001/XMLSchema" xmlns:tns="urn:w" targetNamespace="urn:w">
@@ -138,6 +149,14 @@ def reference_cases(root):
     add("type-group-cycle-through-extension", XH + '<xs:complexType name="T"><xs:complexContent><xs:extension base="tns:U"><xs:sequence><xs:group ref="tns:G"/></xs:sequence></xs:extension></xs:complexContent></xs:complexType>\n'
         '<xs:group name="G"><xs:sequence><xs:element name="t" type="tns:T"/><xs:group ref="tns:T"/></xs:sequence></xs:group>\n<xs:complexType name="U"><xs:sequence><xs:group ref="tns:G"/></xs:sequence></xs:complexType>\n' + XF)
     add("forward-group-chain-12-fan-2", group_chain(12, 2))
+    add("backward-group-dag-32-layers", group_dag_backward(32))
+    # import locations as they are written in the wild: percent signs (escapes, complete or not, before a multi-byte character),
+    # query strings, directory parts, characters outside ASCII; the named file may or may not be among the siblings
+    other = '<xs:schema xmlns:xs="http://www.w3.org/2001/XMLSchema" targetNamespace="urn:x:b"><xs:complexType name="B"><xs:sequence><xs:element name="v" type="xs:string"/></xs:sequence></xs:complexType></xs:schema>\n'
+    for k, loc in enumerate(["common.xsd?coverage=100%", "remise-10%\u20ac.xsd", "%", "a%2", "%zz.xsd", "My%20Types.xsd", "%41.xsd", "dir/sub/../b.xsd", "./b.xsd", "b.xsd#frag", "b.xsd ", "\u00e9t\u00e9.xsd", "file:///b.xsd", "http://example.com/b.xsd", ""]):
+        esc = loc.replace("&", "&amp;").replace('"', "&quot;").replace("<", "&lt;")
+        add(f"import-location-{k}", XH + f'  <xs:import namespace="urn:x:b" schemaLocation="{esc}"/>\n<xs:complexType name="T"><xs:sequence><xs:element name="x" type="xs:string"/></xs:sequence></xs:complexType>\n' + XF,
+            more={"b.xsd": other, "My Types.xsd": other, "A.xsd": other})
     hin = '<soap:header message="tns:In" part="hdr" use="literal"/>'
     hout = '<soap:header message="tns:Out" part="hdr" use="literal"/>'
     for name, args in (("parts-empty-input", (' parts=""', "")), ("parts-empty-output", ("", ' parts=""')), ("parts-only-a-header-part-input", (' parts="hdr"', "", hin)),
